@@ -33,11 +33,27 @@ func NewBuilder(fn *ssa.Function) *Builder {
 // Reset forgets memoised terms (needed when PhiChoice changes).
 func (b *Builder) Reset() { b.memo = map[ssa.Value]*Term{} }
 
+// id gives a value a number that is stable across Builder instances of the
+// same function: the numeric part of its SSA register name (t17 -> 17).
 func (b *Builder) id(v ssa.Value) int {
 	if n, ok := b.allocN[v]; ok {
 		return n
 	}
-	n := len(b.allocN) + 1
+	n := 0
+	name := v.Name()
+	if len(name) > 1 && name[0] == 't' {
+		for _, c := range name[1:] {
+			if c < '0' || c > '9' {
+				n = 0
+				break
+			}
+			n = n*10 + int(c-'0')
+		}
+		n++
+	}
+	if n == 0 {
+		n = 100000 + len(b.allocN)
+	}
 	b.allocN[v] = n
 	return n
 }
@@ -169,6 +185,9 @@ func (b *Builder) term(v ssa.Value) *Term {
 		}
 		return &Term{Op: OLookup, Str: s, Args: []*Term{b.Term(x.X), b.Term(x.Index)}}
 	case *ssa.Slice:
+		if lst := b.varargs(x); lst != nil {
+			return lst
+		}
 		args := []*Term{b.Term(x.X)}
 		for _, o := range []ssa.Value{x.Low, x.High, x.Max} {
 			if o == nil {
@@ -295,4 +314,58 @@ func distinctLocations(a, b ssa.Value) bool {
 		return true
 	}
 	return false
+}
+
+// varargs reconstructs the element list of  slice(new [n]T)[:]  whose cells
+// are stored once each (the compiler's encoding of a variadic call's arguments).
+func (b *Builder) varargs(x *ssa.Slice) *Term {
+	al, ok := x.X.(*ssa.Alloc)
+	if !ok || x.Low != nil || x.High != nil {
+		return nil
+	}
+	arr, ok := al.Type().Underlying().(*types.Pointer).Elem().Underlying().(*types.Array)
+	if !ok {
+		return nil
+	}
+	elems := make([]*Term, arr.Len())
+	refs := al.Referrers()
+	if refs == nil {
+		return nil
+	}
+	for _, r := range *refs {
+		switch ia := r.(type) {
+		case *ssa.IndexAddr:
+			c, ok := ia.Index.(*ssa.Const)
+			if !ok {
+				return nil
+			}
+			i := int(c.Int64())
+			if i < 0 || i >= len(elems) {
+				return nil
+			}
+			irefs := ia.Referrers()
+			if irefs == nil {
+				return nil
+			}
+			for _, rr := range *irefs {
+				st, ok := rr.(*ssa.Store)
+				if !ok || st.Addr != ssa.Value(ia) {
+					return nil
+				}
+				if elems[i] != nil {
+					return nil
+				}
+				elems[i] = b.Term(st.Val)
+			}
+		case *ssa.Slice:
+		default:
+			return nil
+		}
+	}
+	for _, e := range elems {
+		if e == nil {
+			return nil
+		}
+	}
+	return &Term{Op: "list", Args: elems}
 }
